@@ -160,11 +160,28 @@ def label(repo: Repo) -> List[Ob]:
             if isinstance(tg, ast.Name) and isinstance(v, ast.Dict) and v.keys and all(isinstance(k_, ast.Constant) and isinstance(k_.value, int) for k_ in v.keys) \
                     and all("PolarizationLabel" in src(x) for x in v.values):
                 tables[tg.id] = {k_.value: src(x).split(".")[-1] for k_, x in zip(v.keys, v.values)}
+        from ..model import single_defs as _sd
+        _defs = _sd(fi.node)
+
+        def _table_of(v):
+            """the {outcome: label} map a value is looked up in:  TABLE[k] / TABLE.get(k) / {0: H, 1: V}[k], also through a once-bound local"""
+            if isinstance(v, ast.Name) and v.id in _defs:
+                v = _defs[v.id]
+            base = None
+            if isinstance(v, ast.Subscript):
+                base = v.value
+            elif isinstance(v, ast.Call) and method_call(v) and method_call(v)[1] == "get" and len(v.args) == 1:
+                base = method_call(v)[0]
+            if isinstance(base, ast.Name) and base.id in tables:
+                return tables[base.id]
+            if isinstance(base, ast.Dict) and base.keys and all(isinstance(k_, ast.Constant) and isinstance(k_.value, int) for k_ in base.keys) and all("PolarizationLabel" in src(x) for x in base.values):
+                return {k_.value: src(x).split(".")[-1] for k_, x in zip(base.keys, base.values)}
+            return None
         for a_ in [x for x in walk_no_nested(fi.node) if isinstance(x, ast.Assign)]:
-            if src(a_.targets[0]).endswith(".state") and isinstance(a_.value, ast.Subscript) and isinstance(a_.value.value, ast.Name) and a_.value.value.id in tables:
+            if src(a_.targets[0]).endswith(".state") and _table_of(a_.value) is not None:
                 j += 1
                 sites += 1
-                tb = tables[a_.value.value.id]
+                tb = _table_of(a_.value)
                 good = tb.get(0) == "H" and tb.get(1) == "V"
                 (obs.append(ok("LABEL", fi, f"outcome-label#{j}", ("C05", "C07"), a_, "outcome 0 -> H, 1 -> V (label table)")) if good else
                  obs.append(bad("LABEL", fi, f"outcome-label#{j}", ("C05", "C07"), a_, f"the outcome->label table is {tb}: a non-destructively measured polarization is left in the *other* basis state")))
@@ -821,8 +838,25 @@ def est_tail(repo: Repo) -> List[Ob]:
         for rname, kind, region in results:
             found[kind] += 1
 
+            def _offsets(sl: ast.AST) -> Set[int]:
+                """trailing levels a subscript reads: r[-1] -> {1}, r[-2:] -> {1, 2}, r[-1, -1] -> {1}, r[-2:, 0] -> {1, 2}"""
+                first = sl.elts[0] if isinstance(sl, ast.Tuple) and sl.elts else sl
+                def neg(e):
+                    return e.operand.value if isinstance(e, ast.UnaryOp) and isinstance(e.op, ast.USub) and isinstance(e.operand, ast.Constant) and isinstance(e.operand.value, int) else None
+                if neg(first) is not None:
+                    return {neg(first)}
+                if isinstance(first, ast.Slice) and first.lower is not None and neg(first.lower) is not None and first.upper is None and first.step is None:
+                    return set(range(1, neg(first.lower) + 1))
+                return set()
+
+            def _base_is_result(v: ast.AST) -> bool:
+                # the trial result itself, or its diagonal
+                if src(v) == rname:
+                    return True
+                return isinstance(v, ast.Call) and call_np(v) in ("diag", "diagonal") and v.args and src(v.args[0]) == rname
+
             def is_tail(sub: ast.Subscript) -> bool:
-                return src(sub.value) == rname and "-1" in src(sub.slice)
+                return _base_is_result(sub.value) and bool(_offsets(sub.slice))
 
             def outer_sub(x: ast.AST) -> ast.AST:
                 while isinstance(parents.get(id(x)), ast.Subscript) and parents[id(x)].value is x:
@@ -861,6 +895,22 @@ def est_tail(repo: Repo) -> List[Ob]:
                                 f"the tail guard compares `{src(t)}` itself with its bound: a negative or complex last amplitude passes the guard whatever its size, so the estimate depends on the phase of the parameter")))
             if not guarded:
                 obs.append(bad("EST-TAIL", fi, f"tail-guard@{kind}", P, fn, "the estimate is accepted without looking at the last level of the trial space: weight pushed against the cutoff goes unnoticed"))
+            else:
+                # the trial operator is unitary on the truncated space, so the accumulated weight always reaches the threshold: the tail guard is the
+                # only convergence test.  Squeezing conserves the photon-number parity – every second level stays exactly empty – so a guard that reads
+                # the last level alone is blind whenever that level has the wrong parity
+                covered: Set[int] = set()
+                for t in tails:
+                    if wrapped(t, lambda e: isinstance(e, ast.Compare)):
+                        inner = t
+                        while isinstance(inner, ast.Subscript) and not _base_is_result(inner.value):
+                            inner = inner.value
+                        if isinstance(inner, ast.Subscript):
+                            covered |= _offsets(inner.slice)
+                (obs.append(ok("EST-TAIL", fi, f"tail-window@{kind}", P, tails[0], "the tail guard reads the last two levels (both parities)")) if {1, 2} <= covered else
+                 obs.append(bad("EST-TAIL", fi, f"tail-window@{kind}", P, tails[0],
+                                "the tail guard reads the last level only: a parity-conserving operator (squeezing) leaves every second level exactly empty, so with a trial space whose last level has the "
+                                "other parity the guard passes however much weight sits against the cutoff – the squeezed vacuum with zeta = 1 is accepted at 7 levels (infidelity 6e-2 against a threshold of 1e-6)")))
             # (b) accumulated weights: every other read of an entry of the result
             reads = [outer_sub(x) for x in ast.walk(fn) if id(x) in region and isinstance(x, ast.Subscript) and src(x.value) == rname and not is_tail(x)]
             for r in reads:
